@@ -1376,11 +1376,11 @@ where
         edge: &EdgeOfFunc<'id, Self>,
         args: impl IntoIterator<Item = (VarNo, bool)>,
     ) -> bool {
-        // `choices` maps levels to the child number to choose
-        let mut choices = FixedBitSet::with_capacity(manager.num_levels() as usize);
+        // `values` maps levels to the value of the respective variable
+        // (`false` for variables without a value in `args`)
+        let mut values = FixedBitSet::with_capacity(manager.num_levels() as usize);
         for (var, val) in args {
-            // child 0 is "then"/"true", hence the negation
-            choices.set(manager.var_to_level(var) as usize, !val);
+            values.set(manager.var_to_level(var) as usize, val);
         }
 
         #[inline] // this function is tail-recursive
@@ -1388,7 +1388,7 @@ where
             manager: &M,
             edge: Borrowed<M::Edge>,
             complement: bool,
-            choices: &FixedBitSet,
+            values: &FixedBitSet,
         ) -> bool
         where
             M: Manager<EdgeTag = EdgeTag>,
@@ -1397,14 +1397,15 @@ where
             let complement = complement ^ (edge.tag() == EdgeTag::Complemented);
             match manager.get_node(&edge) {
                 Node::Inner(node) => {
-                    let edge = node.child(choices.contains(node.level() as usize) as usize);
-                    inner(manager, edge, complement, choices)
+                    // child 0 is "then"/"true", hence the negation
+                    let edge = node.child(!values.contains(node.level() as usize) as usize);
+                    inner(manager, edge, complement, values)
                 }
                 Node::Terminal(_) => !complement,
             }
         }
 
-        inner(manager, edge.borrowed(), false, &choices)
+        inner(manager, edge.borrowed(), false, &values)
     }
 }
 
